@@ -18,6 +18,13 @@ bytes reached the disk), without it the process dies with its buffers.
 Instead of dying the writer can also copy the cache directory at the chosen
 events ("snap_ks"): the copy is exactly what a process death at that point
 leaves behind, without needing a process per crash point.
+``duel``: TWO writers for the same cache key alive at the same time (another
+environment / thread / process storing the same template, with the same or
+another source).  Both run in threads of this process under a deterministic
+schedule: writer A runs to its event k and stops there (flushing what it wrote
+so far or not), writer B -- or a clear() of the directory -- runs to its own
+event j or to completion, A continues to the end, then B does.  The events
+are the same as the crash points above, dispatched per thread.
 mode "reader": a fresh process loads the template twice (two fresh
 environments) through the same directory and reports what it rendered.
 """
@@ -26,6 +33,7 @@ from __future__ import annotations
 import json
 import os
 import sys
+import threading
 
 AUDIT_EVENTS = {"open", "tempfile.mkstemp", "os.rename", "os.remove", "os.mkdir", "os.rmdir",
                 "os.link", "os.symlink", "os.truncate", "os.chmod", "shutil.move",
@@ -197,8 +205,13 @@ _active = [None]
 _installed = [False]
 
 
+_by_thread = {}     # thread ident -> controller (duel: one per writer thread)
+
+
 def _audit(event, args):
-    c = _active[0]
+    c = _by_thread.get(threading.get_ident()) if _by_thread else None
+    if c is None:
+        c = _active[0]
     if c is not None:
         c.audit(event, args)
 
@@ -237,6 +250,119 @@ def writer(a):
         _active[0] = None
         Bucket.write_bytecode = orig
     return {"completed": True}
+
+
+# -------------------------------------------------------------------- duel
+DUEL_TIMEOUT = 120
+
+
+class _Pauser(_Crash):
+    """A writer that, instead of dying at its k-th event, stops there until
+    the schedule lets it continue."""
+
+    def __init__(self, cache_dir, pause_at, flush):
+        super().__init__({"cache_dir": cache_dir, "crash_at": pause_at, "flush": flush,
+                          "log": None})
+        self.halt = threading.Event()      # set: the thread is stopped (paused or finished)
+        self.resume = threading.Event()
+        self.paused_at = None
+        self.done = False
+        self.out = None
+        self.timed_out = False
+
+    def die(self, flush):
+        was, self.armed = self.armed, False
+        if flush:
+            self._flush()
+        self.paused_at = self.log[-1]
+        self.resume.clear()
+        self.halt.set()
+        if not self.resume.wait(DUEL_TIMEOUT):
+            self.timed_out = True
+        self.armed = was
+
+    def run_until_halt(self, thread=None):
+        """Let the writer thread run until it pauses or finishes."""
+        self.halt.clear()
+        if thread is not None:
+            thread.start()
+        else:
+            self.resume.set()
+        if not self.halt.wait(DUEL_TIMEOUT):
+            self.timed_out = True
+
+
+def duel(a):
+    """a: cache_dir, src_dir, loader, name, source_a, source_b, pause_a (event
+    number of A, 1-based), pause_b (event number of B; 0 = B runs to
+    completion), flush, second ('writer' | 'clear').  Returns what both writers
+    rendered and the event traces."""
+    from jinja2 import FileSystemBytecodeCache
+    from jinja2.bccache import Bucket
+
+    if not _installed[0]:
+        sys.addaudithook(_audit)
+        _installed[0] = True
+    orig = Bucket.write_bytecode
+
+    def write_bytecode(self, f):
+        c = _by_thread.get(threading.get_ident())
+        if c is None:
+            return orig(self, f)
+        c.cur = f
+        c.point("write_bytecode.enter")
+        r = orig(self, _Proxy(f, c))
+        c.point("write_bytecode.exit")
+        return r
+
+    def body(c, env):
+        _by_thread[threading.get_ident()] = c
+        try:
+            c.armed = True
+            c.out = load_render(env, a["name"])
+            c.armed = False
+        finally:
+            _by_thread.pop(threading.get_ident(), None)
+            c.done = True
+            c.halt.set()
+
+    ca = _Pauser(a["cache_dir"], a["pause_a"], a["flush"])
+    cb = _Pauser(a["cache_dir"], a["pause_b"] or -1, a["flush"])
+    Bucket.write_bytecode = write_bytecode
+    threads = []
+    try:
+        loader = make_loader(a["loader"], a["name"], a["source_a"], a.get("src_dir"))
+        ta = threading.Thread(target=body, daemon=True, args=(
+            ca, make_env(loader, FileSystemBytecodeCache(a["cache_dir"]))))
+        threads.append(ta)
+        ca.run_until_halt(ta)
+        a_paused = not ca.done
+        if a["second"] == "clear":
+            try:
+                FileSystemBytecodeCache(a["cache_dir"]).clear()
+                cb.out = ["ok", None]
+            except BaseException as e:  # noqa: BLE001
+                cb.out = ["exc", "clear", type(e).__name__, str(e)[:200]]
+            cb.done = True
+        else:
+            loader_b = make_loader(a["loader"], a["name"], a["source_b"], a.get("src_dir"))
+            tb = threading.Thread(target=body, daemon=True, args=(
+                cb, make_env(loader_b, FileSystemBytecodeCache(a["cache_dir"]))))
+            threads.append(tb)
+            cb.run_until_halt(tb)
+        b_paused = not cb.done
+        if a_paused:
+            ca.run_until_halt()
+        if b_paused:
+            cb.run_until_halt()
+        for t in threads:
+            t.join(DUEL_TIMEOUT)
+    finally:
+        Bucket.write_bytecode = orig
+    return {"a": ca.out, "b": cb.out, "events_a": ca.log, "events_b": cb.log,
+            "a_paused_at": ca.paused_at if a_paused else None,
+            "b_paused_at": cb.paused_at if b_paused else None,
+            "timed_out": ca.timed_out or cb.timed_out or any(t.is_alive() for t in threads)}
 
 
 def reader(a):
